@@ -8,6 +8,7 @@ mod rangecheck;
 mod rast;
 mod rng;
 mod runner;
+mod setops;
 
 use runner::*;
 use serde_json::Value;
